@@ -103,10 +103,29 @@ func entryLevel(name string) (int, bool) {
 
 var errC13 = errors.New("e")
 
+// driverBug: an inconsistency of the driver itself (never caused by the code under test); it is the only
+// panic fire lets through.
+type driverBug string
+
 // fire sends one event through its entry point; admitted = it reached the writer (for the entry points
-// that hand out the event, also: the event is non-nil exactly when it is written).
-func fire(l *zerolog.Logger, w *countWriter, e ev) bool {
+// that hand out the event, also: the event is non-nil exactly when it is written).  Nothing the code under
+// test does may stop the run: a panic out of the logger or a sampler, or an event that is handed out but
+// not written exactly once, comes back as trouble (with the decision seen at the writer) and the caller
+// reports it together with the history.
+func fire(l *zerolog.Logger, w *countWriter, e ev) (admitted bool, trouble string) {
+	if lv, ok := entryLevel(e.Entry); ok && lv != e.Lvl {
+		panic(driverBug(fmt.Sprintf("driver: entry %s stands for level %d, event says %d", e.Entry, lv, e.Lvl)))
+	}
 	before := w.n
+	defer func() {
+		if r := recover(); r != nil {
+			if d, ok := r.(driverBug); ok {
+				panic(d)
+			}
+			admitted = w.n-before == 1
+			trouble = fmt.Sprintf("panicked: %v", r)
+		}
+	}()
 	var evt *zerolog.Event
 	isEvt := true
 	switch e.Entry {
@@ -145,31 +164,43 @@ func fire(l *zerolog.Logger, w *countWriter, e ev) bool {
 			stdlog.New(l, "", 0).Print("x")
 		case "Panic":
 			func() {
-				defer func() { recover() }()
+				defer func() {
+					// Panic()'s own panic carries the message (""); anything else (a runtime error out of a
+					// sampler, say) is not the documented panic and goes on to the handler above
+					if r := recover(); r != nil {
+						if s, ok := r.(string); !ok || s != "" {
+							panic(r)
+						}
+					}
+				}()
 				l.Panic().Msg("")
 			}()
 		default:
-			panic("unknown entry point " + e.Entry)
+			panic(driverBug("unknown entry point " + e.Entry))
 		}
-	}
-	if lv, ok := entryLevel(e.Entry); ok && lv != e.Lvl {
-		panic(fmt.Sprintf("driver: entry %s stands for level %d, event says %d", e.Entry, lv, e.Lvl))
 	}
 	written := w.n - before
 	if isEvt {
-		admitted := evt != nil
+		admitted = evt != nil
 		evt.Msg("")
 		written = w.n - before
 		if admitted != (written == 1) {
 			// an admitted event is written exactly once (levels here are never Disabled)
-			panic(fmt.Sprintf("admitted=%v but writes=%d", admitted, written))
+			return written == 1, fmt.Sprintf("the entry point handed out a non-nil event: %v, but the event was written %d time(s)", admitted, written)
 		}
-		return admitted
+		return admitted, ""
 	}
 	if written > 1 {
-		panic(fmt.Sprintf("one %s call wrote %d times", e.Entry, written))
+		return true, fmt.Sprintf("one %s call wrote %d times", e.Entry, written)
 	}
-	return written == 1
+	return written == 1, ""
+}
+
+// fireTrouble: the first event of a history on which fire reported trouble
+type fireTrouble struct {
+	Index int    `json:"event_index"`
+	Event ev     `json:"event"`
+	What  string `json:"what"`
 }
 
 // recorder wraps a sampler and records that it was consulted (monitor only).
@@ -316,7 +347,7 @@ func setGlobals(g gateCfg, n int) {
 }
 
 // runGateImpl runs the history on the real code and returns the decisions.
-func runGateImpl(g gateCfg, h []ev, rec *[]recCall) ([]bool, *built) {
+func runGateImpl(g gateCfg, h []ev, rec *[]recCall) ([]bool, *built, *fireTrouble) {
 	ids := 0
 	b := buildSampler(g.Sampler, rec, &ids)
 	zerolog.TimestampFunc = func() time.Time { return time.Unix(0, c13now) }
@@ -340,11 +371,16 @@ func runGateImpl(g gateCfg, h []ev, rec *[]recCall) ([]bool, *built) {
 		}
 	}
 	out := make([]bool, len(h))
+	var tr *fireTrouble
 	for i, e := range h {
 		c13now = e.Now
-		out[i] = fire(&l, w, e)
+		var what string
+		out[i], what = fire(&l, w, e)
+		if what != "" && tr == nil {
+			tr = &fireTrouble{i, e, what}
+		}
 	}
-	return out, b
+	return out, b, tr
 }
 
 // presetOK: the overlay accessors found the private counter / window fields (located by shape, see
@@ -465,7 +501,7 @@ func ceilDiv(k, n int) int { return (k + n - 1) / n }
 func c13monitor(c *Ctx, g gateCfg, h []ev, got []bool) {
 	// re-run with recorders to see who was consulted
 	var rec []recCall
-	got2, b := runGateImpl(g, h, &rec)
+	got2, b, _ := runGateImpl(g, h, &rec)
 	for i := range got {
 		if got[i] != got2[i] {
 			c.Violate(Violation{Key: "sampler-nondeterministic", Monitor: "determinism", Desc: "same history, different decisions with recording wrappers", Case: map[string]interface{}{"gate": g, "history": h}})
@@ -511,7 +547,7 @@ func c13monitor(c *Ctx, g gateCfg, h []ev, got []bool) {
 	for i, e := range h {
 		c13now = e.Now
 		rec3 = rec3[:0]
-		adm := fire(&l, w3, e)
+		adm, _ := fire(&l, w3, e) // trouble is reported by emit, with the same history
 		pass := g.HasWriter && e.Lvl >= g.Level && e.Lvl >= g.Global
 		if !pass {
 			if adm {
@@ -683,7 +719,7 @@ func countNodes(c *SCfg) int {
 }
 
 func runC13(c *Ctx) {
-	c.Res.Rule = "a case is (gate configuration incl. sampler tree with preset counters, history of (clock,level) events); bounded-exhaustive histories over a 5-point clock alphabet for small Burst/Period/N, every DisableSampling call sequence of length <= 4 (on which 'the last call decides' and 'calls nest' agree) x 6 sampler shapes; then seeded random trees (depth<=3) and histories (<=60 events, non-monotonic clocks, int64 extremes, counters near 2^32); non-trivial = at least one admitted and one rejected event; distinct by (tree, history) text"
+	c.Res.Rule = "a case is (gate configuration incl. sampler tree with preset counters, history of (clock,level) events); bounded-exhaustive histories over a 5-point clock alphabet for small Burst/Period/N, every DisableSampling call sequence of length <= 4 (on which 'the last call decides' and 'calls nest' agree) x 6 sampler shapes; all 255 event levels (every int8 but Disabled: custom levels below Trace and above Disabled too) in rising, falling and outside-in order through 16 sampler trees (every kind, LevelSamplers on top of and behind Burst/Level nodes) and under custom logger/global levels, and Sample called on those trees directly for all 256 Level values (compared with run_sampler); a panic out of a sampler is a violation carrying the history; then seeded random trees (depth<=3) and histories (<=60 events, non-monotonic clocks, int64 extremes, counters near 2^32); non-trivial = at least one admitted and one rejected event; distinct by (tree, history) text"
 	c.OpenShards("From Verif Require Import Base.Prelude Misc.Level Lts.Sampler Harness.C13H.",
 		"(gate * list (Z * Z)) * list bool", "mismatches c13_run c13_eqb", 1000)
 	presetBasicOK = zerolog.VerifSetBasicCounter(&zerolog.BasicSampler{}, 1)
@@ -693,7 +729,10 @@ func runC13(c *Ctx) {
 	}
 	emit := func(g gateCfg, h []ev) {
 		g.Sampler.stripPresets()
-		got, _ := runGateImpl(g, h, nil)
+		got, _, tr := runGateImpl(g, h, nil)
+		if tr != nil {
+			reportTrouble(c, g, h, tr)
+		}
 		c13monitor(c, g, h, got)
 		term := fmt.Sprintf("((%s, %s), %s)", g.coq(), histCoq(h), CoqBools(got))
 		j := map[string]interface{}{"gate": g, "history": h, "decisions": got}
@@ -856,6 +895,10 @@ func runC13(c *Ctx) {
 		c.Res.ExtraCoverage["disable_sampling_sequence_cases"] = n
 	}
 
+	// 1d. all 255 event levels (custom verbosity levels below Trace and custom levels above Disabled included)
+	// through sampler trees of every kind (levels_all.go)
+	allLevelsThroughLogger(c, emit)
+
 	// 2. random
 	nrand := 2500
 	if c.Thorough() {
@@ -955,4 +998,7 @@ func runC13(c *Ctx) {
 			c.Note("K5 witness did not reproduce: got %v", got)
 		}
 	}
+
+	// 5. Sample called on the sampler trees themselves for all 256 Level values (second shard stream)
+	allLevelsDirect(c)
 }
